@@ -25,6 +25,7 @@ use tokio::task::JoinHandle;
 pub enum Focus {
     C01,
     C09,
+    C10,
     C12,
     C13,
     C14,
@@ -38,6 +39,7 @@ impl Focus {
         match self {
             Focus::C01 => "C01",
             Focus::C09 => "C09",
+            Focus::C10 => "C10",
             Focus::C12 => "C12",
             Focus::C13 => "C13",
             Focus::C14 => "C14",
@@ -168,6 +170,12 @@ impl Sys {
         let fut = self.w.discv5.find_node(NodeId::new(&target));
         let h = tokio::spawn(async move { ApiOut::Nodes(fut.await.map_err(|e| format!("{e:?}"))) });
         self.apis.push(ApiCall { what: "find_node".into(), node: None, target: Some(target), started: self.w.now(), handle: Some(h), done: None, payload: vec![] });
+    }
+
+    pub fn api_find_node_predicate(&mut self, target: Id, want: usize) {
+        let fut = self.w.discv5.find_node_predicate(NodeId::new(&target), Box::new(|e: &Enr| e.seq() % 2 == 0), want);
+        let h = tokio::spawn(async move { ApiOut::Nodes(fut.await.map_err(|e| format!("{e:?}"))) });
+        self.apis.push(ApiCall { what: format!("find_node_predicate {want}"), node: None, target: Some(target), started: self.w.now(), handle: Some(h), done: None, payload: vec![] });
     }
 
     pub fn api_talk(&mut self, i: usize, payload: Vec<u8>) {
@@ -1109,6 +1117,277 @@ pub fn attack(seed: u64, rep: &mut Report) {
 }
 
 /* ---------------------------------------------------------------------------------------- */
+/* lookups on the full stack: C09 (termination, in-flight bound, one request per peer) and   */
+/* C10 (result sound, ordered, bounded, complete)                                            */
+
+pub fn lookup(seed: u64, focus: Focus, rep: &mut Report) {
+    let rt = runtime(seed);
+    rt.block_on(async {
+        let mut rng = Rng::new(seed ^ 0x100C);
+        let max_nodes = *rng.pick(&[16usize, 16, 64, 4]);
+        let parallelism = *rng.pick(&[3usize, 3, 1, 5]);
+        let query_timeout = Duration::from_secs(*rng.pick(&[4u64, 10, 60]));
+        let peer_timeout = Duration::from_millis(*rng.pick(&[300u64, 2000]));
+        let request_timeout = Duration::from_millis(*rng.pick(&[200u64, 1000]));
+        let retries = rng.below(2) as u8;
+        let cfg = WorldCfg {
+            stack: Stack3::V4,
+            victim_enr_has_addr: true,
+            request_timeout,
+            request_retries: retries,
+            tweak: Box::new(move |b| {
+                b.max_nodes_response(max_nodes);
+                b.query_parallelism(parallelism);
+                b.query_timeout(query_timeout);
+                b.query_peer_timeout(peer_timeout);
+                b.ping_interval(Duration::from_secs(3000));
+                b.disable_enr_update();
+            }),
+        };
+        let mut s = Sys::start(seed, focus, cfg, max_nodes).await;
+        s.talk_policy = 0;
+        let big = rng.chance(1, 3);
+        let spec = NetSpec { n: if big { 20 + rng.usize(25) } else { 4 + rng.usize(14) }, silent: rng.usize(5), mismatched: 0, no_addr: 0, v6: 0 };
+        let all = build_net(&mut s, &spec);
+        for i in &all {
+            if !s.w.nodes[*i].b.silent {
+                match rng.below(10) {
+                    0 => s.w.nodes[*i].b.respond = false,
+                    1 => s.w.nodes[*i].b.lose_replies = 500,
+                    2 => s.w.nodes[*i].b.records_per_packet = 1,
+                    _ => {}
+                }
+            }
+        }
+        if rng.chance(1, 2) {
+            s.w.faults = Faults3 { drop: rng.below(100), dup: rng.below(60), delay: rng.below(200) };
+        }
+        let boot = 1 + rng.usize(6);
+        let mut boots = all.clone();
+        rng.shuffle(&mut boots);
+        for i in boots.iter().take(boot) {
+            s.add_enr(*i);
+        }
+        let nlookups = 1 + rng.usize(3);
+        let vid = s.w.victim_id;
+        for _ in 0..nlookups {
+            let target: Id = match rng.below(4) {
+                0 => s.w.id(*rng.pick(&all)),
+                1 => vid,
+                _ => rng.array(),
+            };
+            let predicate = rng.chance(1, 3);
+            let want = 1 + rng.usize(16);
+            let t_start = s.w.now();
+            let pos0 = s.w.trace.len();
+            let call = s.apis.len();
+            s.w.note(format!("lookup starts: target {} predicate {predicate} wanted {want}", hx(&target[..4])));
+            if predicate {
+                s.api_find_node_predicate(target, want);
+            } else {
+                s.api_find_node(target);
+            }
+            // run until the call returns (bounded by the query timeout plus what the transport needs)
+            // The cut-off is noticed when the service task next wakes up (its query pool registers
+            // no timer of its own); what wakes it at the latest is the end of the last outstanding
+            // request, whose timer restarts with every partial NODES packet (15 at most).
+            let bound = query_timeout + request_timeout * (retries as u32 + 1) * 16 + Duration::from_secs(3);
+            while s.apis[call].done.is_none() && s.w.now() < t_start + bound {
+                let n = s.tick(rep).await;
+                if n == 0 {
+                    tokio::time::sleep((request_timeout / 8).max(Duration::from_millis(2))).await;
+                }
+            }
+            rep.count("sys_lookups");
+            let wit = json!({"target": hx(&target), "predicate": predicate, "wanted": want, "parallelism": parallelism, "query_timeout_s": query_timeout.as_secs(), "peer_timeout_ms": peer_timeout.as_millis() as u64, "request_timeout_ms": request_timeout.as_millis() as u64, "retries": retries, "max_nodes_response": max_nodes});
+            let Some((t_done, out)) = &s.apis[call].done else {
+                s.flag(rep, Focus::C09, "C09:no-result", format!("the lookup did not return within {bound:?} (query timeout {query_timeout:?})"), wit.clone());
+                continue;
+            };
+            let t_done = *t_done;
+            let summary = match out { ApiOut::Nodes(Ok(v)) => format!("{} nodes: {:?}", v.len(), v.iter().map(|e| hx(&e.node_id().raw()[..4])).collect::<Vec<_>>()), other => format!("{other:?}") };
+            s.w.note(format!("lookup returned at {t_done:?}: {summary}"));
+            let cut_off = t_done >= t_start + query_timeout;
+            // ---- what the wire saw during the lookup ----
+            // requests: (node, request id) -> first transmission; answers: first NODES packet delivered
+            let mut first_tx: HashMap<(usize, Vec<u8>), Duration> = HashMap::new();
+            let mut answered: HashMap<(usize, Vec<u8>), Duration> = HashMap::new();
+            let mut learned: HashSet<Id> = HashSet::new();
+            let mut partial: HashMap<(usize, Vec<u8>), (u64, Vec<Vec<u8>>, bool)> = HashMap::new();
+            let mut activity: HashMap<(usize, Vec<u8>), Duration> = HashMap::new();
+            let mut all_tx: HashMap<(usize, Vec<u8>), Vec<Duration>> = HashMap::new();
+            for (at, e) in &s.w.trace[pos0..] {
+                match e {
+                    WEv::Sent { node: Some(i), msg: Some(RefMessage::FindNode { id, .. }), .. } => {
+                        first_tx.entry((*i, id.clone())).or_insert(*at);
+                        all_tx.entry((*i, id.clone())).or_default().push(*at);
+                        let a = activity.entry((*i, id.clone())).or_insert(*at);
+                        *a = (*a).max(*at);
+                    }
+                    WEv::Injected { node: Some(i), msg: Some(RefMessage::Nodes { id, records, .. }), .. } if *at <= t_done => {
+                        // an answer packet counts while the transport still waits for it: its timer
+                        // restarts with every transmission and every accepted packet
+                        let alive = activity.get(&(*i, id.clone())).map(|last| *at <= *last + request_timeout).unwrap_or(false);
+                        if alive {
+                            activity.insert((*i, id.clone()), *at);
+                            answered.entry((*i, id.clone())).or_insert(*at);
+                            // records reach the lookup when the answer is complete (a partial
+                            // answer is only used when its request finally times out, which may
+                            // be after the lookup has ended: not counted as learnt here)
+                            let total = match e {
+                                WEv::Injected { msg: Some(RefMessage::Nodes { total, .. }), .. } => *total,
+                                _ => 1,
+                            };
+                            // the receiving side stops collecting when it has `total` packets, 15
+                            // packets, or (before this packet) max_nodes_response records
+                            let acc = partial.entry((*i, id.clone())).or_insert((1u64, Vec::new(), false));
+                            if !acc.2 {
+                                let more = total > 1 && acc.1.len() < max_nodes && acc.0 < total && acc.0 < 15;
+                                acc.1.extend(records.iter().cloned());
+                                if more {
+                                    acc.0 += 1;
+                                } else {
+                                    acc.2 = true;
+                                    for r in &acc.1 {
+                                        if let Some(e) = rlp_ref::decode_record(r) {
+                                            learned.insert(e.node_id().raw());
+                                        }
+                                    }
+                                }
+                            }
+                        }
+                    }
+                    _ => {}
+                }
+            }
+            rep.count_n("sys_lookup_requests", first_tx.len() as u64);
+            // one request per peer
+            let mut per_node: HashMap<usize, usize> = HashMap::new();
+            for (i, _) in first_tx.keys() {
+                *per_node.entry(*i).or_default() += 1;
+            }
+            for (i, n) in &per_node {
+                if *n > 1 {
+                    s.flag(rep, Focus::C09, "C09:peer-asked-twice", format!("node {i} received {n} different FINDNODE requests during one lookup"), wit.clone());
+                }
+            }
+            // in flight, as far as the wire can tell: a transmission of it left less than one request
+            // timeout ago (whatever the retry policy, the transport waits that long after each
+            // transmission), nothing was delivered for it yet, and the lookup's own peer timeout has
+            // not passed
+            let mut points: Vec<Duration> = first_tx.values().copied().collect();
+            points.sort();
+            let mut max_inflight = 0usize;
+            for p in &points {
+                let n = first_tx
+                    .iter()
+                    .filter(|(k, t0)| **t0 <= *p && *p < **t0 + peer_timeout && all_tx[*k].iter().any(|t| *t <= *p && *p < *t + request_timeout) && answered.get(*k).map(|a| *a > *p).unwrap_or(true))
+                    .count();
+                max_inflight = max_inflight.max(n);
+            }
+            rep.max("sys_lookup_max_inflight", max_inflight as u64);
+            // the statement allows up to the number of wanted results once the lookup has stalled;
+            // a stall is not visible on the wire, so only that larger bound is judged here
+            let cap = parallelism.max(if predicate { want } else { 16 });
+            // a request that fails early (a second WHOAREYOU after a duplicated datagram, ...) frees
+            // its slot without a trace on the wire: judged only when the network neither duplicates nor delays
+            if max_inflight > cap && s.w.faults.dup == 0 && s.w.faults.delay == 0 {
+                s.flag(rep, Focus::C09, "C09:too-many-in-flight", format!("{max_inflight} lookup requests were in flight at once (parallelism {parallelism}, results wanted {})", if predicate { want } else { 16 }), wit.clone());
+            }
+            if max_inflight > parallelism {
+                rep.count("sys_lookups_above_parallelism_possibly_stalled");
+            }
+            if t_done > t_start + query_timeout + request_timeout * (retries as u32 + 1) + Duration::from_millis(500) {
+                rep.count("sys_lookups_cut_off_late_at_next_wakeup");
+            }
+            // ---- the result ----
+            let ApiOut::Nodes(Ok(result)) = out else {
+                rep.count("sys_lookup_errors");
+                continue;
+            };
+            rep.count_n("sys_lookup_results", result.len() as u64);
+            let limit = if predicate { want } else { 16 };
+            if result.len() > limit {
+                s.flag(rep, Focus::C10, "C10:more-than-k-results", format!("{} nodes returned, at most {limit} allowed", result.len()), wit.clone());
+            }
+            let ids: Vec<Id> = result.iter().map(|e| e.node_id().raw()).collect();
+            let uniq: HashSet<Id> = ids.iter().copied().collect();
+            if uniq.len() != ids.len() {
+                s.flag(rep, Focus::C10, "C10:duplicate-result", "a node occurs twice in the result".into(), wit.clone());
+            }
+            let dist = |id: &Id| crate::props::kb::xor(id, &target);
+            if ids.windows(2).any(|w| dist(&w[0]) > dist(&w[1])) {
+                s.flag(rep, Focus::C10, "C10:result-not-sorted", "the result is not in increasing distance to the target".into(), wit.clone());
+            }
+            for e in result {
+                let id = e.node_id().raw();
+                let Some(i) = s.w.node_by_id(&id) else {
+                    s.flag(rep, Focus::C10, "C10:unknown-node-in-result", "the result contains a node that does not exist in the network".into(), wit.clone());
+                    continue;
+                };
+                if !answered.keys().any(|(n, _)| *n == i) {
+                    s.flag(rep, Focus::C10, "C10:result-node-did-not-answer", format!("node {i} is in the result although no answer of it to this lookup reached the node under test"), wit.clone());
+                }
+                if predicate && e.seq() % 2 != 0 {
+                    s.flag(rep, Focus::C10, "C10:predicate-violated", format!("node {i} is in the result with a record (seq {}) that does not satisfy the predicate", e.seq()), wit.clone());
+                }
+            }
+            if !predicate && result.len() < 16 && !cut_off {
+                // complete: every candidate it learned of was contacted
+                // contacted = a lookup request, or the session-initiating packet that precedes it,
+                // was put on the wire for that node
+                let mut contacted: HashSet<Id> = first_tx.keys().map(|(i, _)| s.w.id(*i)).collect();
+                // ... including one of an earlier exchange that may still be waiting for its
+                // WHOAREYOU when this lookup starts: the lookup's request is then queued behind it
+                // and never shows on the wire if that node stays silent
+                let pending_window = request_timeout * (retries as u32 + 1) + Duration::from_secs(1);
+                for (at, e) in &s.w.trace {
+                    if let WEv::Sent { node: Some(i), kind: "random", .. } = e {
+                        if *at + pending_window >= t_start && *at <= t_done {
+                            contacted.insert(s.w.id(*i));
+                        }
+                    }
+                }
+                // ... and "learnt" is confirmed by the node's own announcement of the record
+                let announced: HashSet<Id> = s.w.events.iter().filter(|(t, _)| *t >= t_start && *t <= t_done).filter_map(|(_, e)| match e {
+                    EvSum::Discovered(id, _) => Some(*id),
+                    _ => None,
+                }).collect();
+                let missing: Vec<String> = learned.iter().filter(|id| **id != vid && announced.contains(*id) && !contacted.contains(*id) && s.w.node_by_id(id).is_some()).map(|id| format!("{}=node{}", hx(&id[..4]), s.w.node_by_id(id).unwrap())).collect();
+                rep.count("sys_lookups_judged_for_completeness");
+                if !missing.is_empty() {
+                    s.flag(rep, Focus::C10, "C10:candidate-not-contacted", format!("the lookup returned {} nodes without being cut off, yet it never contacted {} candidates it had learnt of ({:?})", result.len(), missing.len(), &missing[..missing.len().min(4)]), wit.clone());
+                }
+            }
+            rep.fingerprint(&("sys-lookup", focus, predicate, result.len().min(17), max_inflight.min(6), cut_off, big, parallelism));
+            // let every request of this lookup end (and every delayed datagram arrive) before the
+            // next one starts, so that what is on the wire during a lookup belongs to it
+            let pause = request_timeout * (retries as u32 + 4) + Duration::from_millis(*rng.pick(&[10u64, 500, 3000]));
+            s.advance(pause, rep).await;
+        }
+        s.w.faults = Faults3::default();
+        s.settle_all(Duration::from_secs(20), rep).await;
+        s.finish(rep);
+        if std::env::var("DV5_TRACE").is_ok() {
+            eprintln!("{}", serde_json::to_string_pretty(&s.w.dump(100000)).unwrap());
+        }
+        rep.evaluations += 1;
+        rep.count("sys_lookup_scenarios");
+        if rep.want_sample() && rng.chance(1, 10) {
+            rep.sample(json!({"scenario_seed": seed.to_string(), "kind": "system-lookup", "nodes": s.w.nodes.len(), "lookups": nlookups, "parallelism": parallelism, "datagrams_sent": s.w.all_sent.len(), "trace_tail": s.w.dump(10)}));
+        }
+    });
+}
+
+pub fn run_lookups(p: &crate::util::Params, focus: Focus, tag: u64, quick: u64, thorough: u64, rep: &mut Report) {
+    let n = p.budget(quick, thorough);
+    for i in 0..n {
+        let seed = p.shard_seed(tag + i);
+        crate::util::guarded(rep, seed, |rep| lookup(seed, focus, rep));
+    }
+}
+
+/* ---------------------------------------------------------------------------------------- */
 /* replay                                                                                    */
 
 pub fn replay(r: &Value, rep: &mut Report) -> bool {
@@ -1119,6 +1398,7 @@ pub fn replay(r: &Value, rep: &mut Report) -> bool {
     let focus = match r["replay"]["focus"].as_str().unwrap_or("") {
         "C01" => Focus::C01,
         "C09" => Focus::C09,
+        "C10" => Focus::C10,
         "C12" => Focus::C12,
         "C13" => Focus::C13,
         "C14" => Focus::C14,
@@ -1126,10 +1406,10 @@ pub fn replay(r: &Value, rep: &mut Report) -> bool {
         "C19" => Focus::C19,
         _ => Focus::C20,
     };
-    if focus == Focus::C01 {
-        attack(seed, rep);
-    } else {
-        mixed(seed, focus, rep);
+    match focus {
+        Focus::C01 => attack(seed, rep),
+        Focus::C09 | Focus::C10 => lookup(seed, focus, rep),
+        _ => mixed(seed, focus, rep),
     }
     true
 }
@@ -1157,6 +1437,9 @@ pub fn run_debug(p: &crate::util::Params) -> Report {
             crate::util::guarded(&mut rep, seed, |rep| mixed(seed, f, rep));
         }
         crate::util::guarded(&mut rep, seed, |rep| attack(seed, rep));
+        for f in [Focus::C09, Focus::C10] {
+            crate::util::guarded(&mut rep, seed, |rep| lookup(seed, f, rep));
+        }
     }
     rep
 }
